@@ -232,6 +232,9 @@ static int uprobe_selflow_set_internal(struct uprobe *uprobe, const char *flows)
     struct uchain *uchain;
     ulist_foreach (&uprobe_selflow->subs, uchain) {
         struct uprobe_selflow_sub *sub = uprobe_selflow_sub_from_uchain(uchain);
+        if (sub->flow_def == NULL)
+            /* the flow has ended: wait for the next split update */
+            continue;
         if (uprobe_selflow_check(uprobe, sub->flow_id, sub->flow_def)) {
             if (sub->subpipe == NULL) {
                 sub->subpipe = upipe_flow_alloc_sub(sub->split_pipe,
